@@ -107,6 +107,46 @@ def arm_template(fx, arm):
     return tpl, types, unused, wild
 
 
+def variant_templates(fx, body, adt):
+    """{variant: (template, {field: type}, unused fields, [])} from the symbolic rendering of a Display impl: for each
+    variant the one path that assumes it; None when some variant has no unique rendering (fall back to the arms)"""
+    from .. import render as R
+    try:
+        paths = R.render_paths(fx, body, [("var", "self"), ("var", "f")], ("var", "f"))
+    except Exception:
+        return None
+    out = {}
+    for vv in adt["variants"]:
+        v = vv["name"]
+        mine = [p for p in paths if any(c == ("app", "is_variant", (("var", "self"), ("lit", v))) and val == ("lit", True) for c, val in p["conds"])]
+        tpls = set()
+        info = None
+        for p in mine:
+            used = set()
+            types = {}
+
+            def name_of(t, v=v, used=used, types=types, vv=vv):
+                if isinstance(t, tuple) and t[:2] == ("app", "proj") and t[2][0] == ("var", "self") and t[2][1] == ("lit", v):
+                    f = t[2][2][1]
+                    used.add(f)
+                    types[f] = next((x["ty"] for x in vv["fields"] if x["name"] == f), "").lstrip("&")
+                    return f
+                return None
+            segs = p["segs"]
+            tpl = R.template(segs, name_of)
+            for sg in segs:
+                if sg[0] == "joined":
+                    n = name_of(sg[1])
+                    if n is not None:
+                        types[n] = "joined"
+            tpls.add(tpl)
+            info = (tpl, types, [f["name"] for f in vv["fields"] if f["name"] not in used], [])
+        if len(tpls) != 1 or info is None:
+            return None
+        out[v] = info
+    return out
+
+
 def tokens(tpl, types):
     """token pattern: list of ('lit', word) / ('class', regex)"""
     out = []
@@ -147,6 +187,51 @@ def disjoint(r1, r2):
     return not any(re.fullmatch(r1, w) and re.fullmatch(r2, w) for w in wit)
 
 
+def sections_template(fx, body):
+    """the listing's template as one string with {field} placeholders (a one-element list), None if not executable"""
+    from .. import render as R
+    try:
+        paths = R.render_paths(fx, body, [("var", "self"), ("var", "f")], ("var", "f"))
+    except Exception:
+        return None
+    if len(paths) != 1:
+        return None
+
+    def name_of(t):
+        if isinstance(t, tuple) and t[:2] == ("app", "field") and t[2][0] == ("var", "self"):
+            return t[2][1][1]
+        return None
+    tpl = R.template(paths[0]["segs"], name_of)
+    return [tpl] if tpl is not None else None
+
+
+def numbered_lines(fx, body):
+    """(ok, why) when the rendering of a newtype over a sequence can be executed: every element, in order, on its own
+    line as `<position>: <element>`; (None, …) when it cannot be executed"""
+    from .. import render as R
+    from ..symdbg import fmt_term
+    try:
+        paths = R.render_paths(fx, body, [("var", "self"), ("var", "f")], ("var", "f"))
+    except Exception as e:  # noqa
+        return None, str(e)
+    if not paths:
+        return None, "no successful path"
+    whys = []
+    for p in paths:
+        segs = p["segs"]
+        ok = len(segs) == 1 and segs[0][0] == "each" and not segs[0][4]
+        if ok:
+            it, passes, elem = segs[0][1], segs[0][2], segs[0][3]
+            base_ok = it[0] == "iter" and it[2] == "fwd" and it[3] == ("enumerate",) and it[1] == ("app", "field", (("var", "self"), ("lit", "0")))
+            idx = ("sym", elem[1], "index") if elem else None
+            want = [("arg", idx, "Display", ""), ("lit", ": "), ("arg", elem, "Display", ""), ("lit", "\n")]
+            ok = base_ok and len(passes) == 1 and passes[0]["segs"] == want
+        whys.append(ok)
+    good = all(whys)
+    return good, ("each element of the sequence, forwards, as `<position>: <element>` + newline" if good else
+                  "rendering is not `<position>: <element>` per line for every element in order")
+
+
 def run(ck, fx, cg, tier):
     ck.explanation = (
         "The listing is the Display rendering of the loaded Program. Decided from the format_args templates captured "
@@ -165,20 +250,28 @@ def run(ck, fx, cg, tier):
         if not ck.anchor("R17.coverage", A.get(role), b):
             continue
         ck.fn(b["path"])
-        ms = [n for n, ps in walk_body(b) if n.get("k") == "Match" and n.get("src") == "Normal"]
-        if not ck.anchor("R17.coverage", "match on self in " + role, ms or None):
-            continue
-        m = ms[0]
         a = fx.adts.get(adt)
+        sym = variant_templates(fx, b, a) if a else None
+        ms = [n for n, ps in walk_body(b) if n.get("k") == "Match" and n.get("src") == "Normal"]
+        if sym is None and not ck.anchor("R17.coverage", "match on self in " + role, ms or None):
+            continue
+        m = ms[0] if ms else b
         pats = {}
         seen = 0
-        for arm in m["arms"]:
-            v = (arm["pat"].get("res") or {}).get("variant")
-            if v is None:
-                ck.ob("R17.coverage", "%s|wildcard arm" % role, False, loc(arm["pat"]), "a wildcard arm renders several variants identically")
-                continue
+        if sym is not None:
+            # decided on the rendering itself (every write to the formatter on the variant's path, helpers followed)
+            work = [(v, sym[v], b) for v in [vv["name"] for vv in a["variants"]]]
+        else:
+            work = []
+            for arm in m["arms"]:
+                v = (arm["pat"].get("res") or {}).get("variant")
+                if v is None:
+                    ck.ob("R17.coverage", "%s|wildcard arm" % role, False, loc(arm["pat"]), "a wildcard arm renders several variants identically")
+                    continue
+                work.append((v, arm_template(fx, arm), arm["pat"]))
+        for v, (tpl, types, unused, wild), at in work:
+            arm = {"pat": at}
             seen += 1
-            tpl, types, unused, wild = arm_template(fx, arm)
             fields = [f["name"] for vv in a["variants"] if vv["name"] == v for f in vv["fields"]] if a else []
             key = "%s::%s" % (adt.rsplit("::", 1)[1], v)
             cov_ok = tpl is not None and not unused and not wild and "{?}" not in tpl and all(("{%s}" % f) in tpl for f in fields)
@@ -217,8 +310,10 @@ def run(ck, fx, cg, tier):
     b = fx.body(A.get("program.display"))
     if ck.anchor("R17.sections", "Display for Program", b):
         ck.fn(b["path"])
-        seq = []
-        for n, ps in walk_body(b):
+        seq = sections_template(fx, b)
+        for n, ps in (walk_body(b) if seq is None else []):
+            if seq is None:
+                seq = []
             if n.get("k") == "FormatArgs":
                 tpl = ""
                 for p in n["pieces"]:
@@ -228,7 +323,8 @@ def run(ck, fx, cg, tier):
                         a = peel(n["args"][p["arg"]])
                         tpl += "{%s}" % (a["name"] if a.get("k") == "Field" else "?")
                 seq.append(tpl)
-        ck.ob("R17.sections", "sections and order", seq == S8_SECTIONS, loc(b), "listing = %s; S8: %s" % (seq, S8_SECTIONS))
+        seq = seq or []
+        ck.ob("R17.sections", "sections and order", "".join(seq) == "".join(S8_SECTIONS), loc(b), "listing = %s; S8: %s" % (seq, S8_SECTIONS))
         a = fx.adts.get("bytecode::program::Program")
         fields = [f["name"] for f in a["variants"][0]["fields"]] if a else []
         printed = {x for s in seq for x in re.findall(r"\{(\w+)\}", s)}
@@ -238,6 +334,10 @@ def run(ck, fx, cg, tier):
     for ty in ("ConstantPool", "Globals", "Code"):
         b = fx.body("<bytecode::program::%s as std::fmt::Display>::fmt" % ty)
         if not ck.anchor("R17.coverage", "Display for " + ty, b):
+            continue
+        okr, whyr = numbered_lines(fx, b)
+        if okr is not None:
+            ck.ob("R17.coverage", "%s: `<index>: <item>` per line" % ty, okr, loc(b), whyr)
             continue
         fas = [n for n, ps in walk_body(b) if n.get("k") == "FormatArgs"]
         enum = any(n.get("k") == "MethodCall" and n["name"] == "enumerate" for n, ps in walk_body(b))
